@@ -561,6 +561,61 @@ func c07ForIn(c *Ctx, es *ssa.Function) {
 			c.check(okT && len(tags) == 7 && !ek.KindsAt(effectiveResults(r)[0], FactsOf(es).At(r.Block())).Has(KNil), "R7", "for-in other kinds", p.InstrPos(r), "every other kind is a `not iterable` runtime error", "the `not iterable` error arm is reached for "+strings.Join(tags, ","))
 		}
 	}
+	// whether the body runs is decided by the iterable alone: between the evaluation of the iterable and
+	// the body evaluation of an arm nothing is tested but that evaluation's error, the kind of the
+	// iterable and Go's own loop condition (a for-in with an empty body still binds its variables)
+	iters := findCall(es, "(*lang.Evaluator).evalExpr", "StatementForIn.Iterable")
+	if len(iters) == 1 {
+		for _, body := range findCall(es, "(*lang.Evaluator).evalStatement", "StatementForIn.Body") {
+			if !iters[0].Block().Dominates(body.Block()) {
+				continue
+			}
+			extra := extraGuardsBetween(p, es, iters[0].Block(), body.Block(), ".Value.Tag", "Iterable)#1", "i@", "next(range(")
+			c.check(len(extra) == 0, "R7", "for-in visits-whatever-the-body "+strings.Join(ms.At(body.Block()), ","), p.InstrPos(body), "the elements are visited under the iterable's kind and the loop condition only", "the elements are visited only under {"+strings.Join(extra, " && ")+"}: otherwise the loop ends without a visit and the loop variables keep their old values")
+		}
+	}
+	// ... and no exit lies between the evaluation of the iterable and the test of its kind other than the
+	// one that hands on the evaluation's error (a disjunctive early exit leaves no fact at the loop)
+	if len(iters) == 1 {
+		tagTests := map[*ssa.BasicBlock]bool{}
+		for _, b := range es.Blocks {
+			if len(b.Instrs) == 0 {
+				continue
+			}
+			if ifi, ok := b.Instrs[len(b.Instrs)-1].(*ssa.If); ok {
+				if cmp, isCmp := ifi.Cond.(*ssa.BinOp); isCmp && (p.RenderShort(cmp.X) == V+".Tag" || p.RenderShort(cmp.Y) == V+".Tag") {
+					tagTests[b] = true
+				}
+			}
+		}
+		nExit := 0
+		if len(tagTests) > 0 && !tagTests[iters[0].Block()] {
+			reach := reachableFrom(iters[0].Block().Succs, tagTests)
+			for _, b := range es.Blocks {
+				if !reach[b] || tagTests[b] || len(b.Instrs) == 0 {
+					continue
+				}
+				ret, ok := b.Instrs[len(b.Instrs)-1].(*ssa.Return)
+				if !ok {
+					continue
+				}
+				nExit++
+				res := effectiveResults(ret)
+				handsOn := false
+				if call, idx := callOf(res[len(res)-1]); call == iters[0] && idx == 1 {
+					handsOn = true
+				}
+				// or an error made where the evaluation's error is known to be set (a wrapped error)
+				for _, rl := range FactsOf(es).At(b).Rels() {
+					if call, idx := callOf(rl.x); call == iters[0] && idx == 1 && rl.op == relNE && isNilConst(rl.y) && !isNilConst(res[len(res)-1]) {
+						handsOn = true
+					}
+				}
+				c.check(handsOn, "R7", fmt.Sprintf("for-in no-exit-before-the-kind-test #%d", nExit), p.InstrPos(ret), "the only exit before the kind test returns the iterable's evaluation error", "the for-in statement returns "+p.RenderShort(res[len(res)-1])+" after the iterable was evaluated and before its kind is looked at: on that path no element is visited and no loop variable is bound")
+			}
+		}
+		c.check(len(tagTests) > 0 && nExit >= 1, "R7", "for-in kind-test", p.Pos(es.Pos()), "the kind of the iterable is tested after its evaluation", fmt.Sprintf("%d tests of the iterable's kind and %d exits before them found", len(tagTests), nExit))
+	}
 	// each binding store precedes the body evaluation of its arm
 	for _, body := range findCall(es, "(*lang.Evaluator).evalStatement", "StatementForIn.Body") {
 		dom := false
